@@ -1,3 +1,40 @@
-use crate::SearchResult;
-pub fn search(_seed: u64, _full: bool, _rt: &tokio::runtime::Runtime) -> SearchResult { SearchResult { evaluations: 0, failures: vec![], summary: "not yet implemented".into() } }
-pub fn replay(_case: &[&str], _rt: &tokio::runtime::Runtime) -> (bool, String) { (false, "not yet implemented".into()) }
+//! C13 (as-of reads): a reader whose view is `lag` epochs behind storage must get an error or the hash it asked for —
+//! contract tree_node/determine_node_to_get#E_never_newer on the real directory.
+use crate::{Failure, SearchResult};
+use akd_core::{ExampleLabel, ExperimentalConfiguration, WhatsAppV1Configuration};
+
+fn run(cfg: &str, lag: u64, rt: &tokio::runtime::Runtime, out: &mut Vec<Failure>) {
+    let r = if cfg == "whatsapp_v1" {
+        rt.block_on(akd::vx_export::d3_lagging_reader::<WhatsAppV1Configuration>(lag))
+    } else {
+        rt.block_on(akd::vx_export::d3_lagging_reader::<ExperimentalConfiguration<ExampleLabel>>(lag))
+    };
+    if let Ok(Some(true)) = r {
+        out.push(Failure {
+            clause: "tree_node/TreeNodeWithPreviousValue.determine_node_to_get#E_never_newer".into(),
+            case: vec!["c13".into(), cfg.into(), lag.to_string()],
+            input: format!("[{cfg}] publish 1 + {lag} epochs, reset the epoch record to 1, ReadOnlyDirectory::get_epoch_hash()"),
+            expected: "an error, or (1, root hash of epoch 1)".into(),
+            observed: "(1, a root hash of a later epoch)".into(),
+            finding_id: None,
+        });
+    }
+}
+
+pub fn search(_seed: u64, full: bool, rt: &tokio::runtime::Runtime) -> SearchResult {
+    let mut out = vec![];
+    let mut n = 0;
+    for cfg in ["whatsapp_v1", "experimental"] {
+        for lag in 0..=(if full { 6 } else { 3 }) {
+            run(cfg, lag, rt, &mut out);
+            n += 1;
+        }
+    }
+    SearchResult { evaluations: n, failures: out, summary: "read-only directory lagging 0..k epochs behind storage asks for its epoch hash (both configurations)".into() }
+}
+
+pub fn replay(case: &[&str], rt: &tokio::runtime::Runtime) -> (bool, String) {
+    let mut out = vec![];
+    run(case[0], case[1].parse().unwrap(), rt, &mut out);
+    match out.first() { Some(f) => (true, format!("{}: expected {}, observed {}", f.input, f.expected, f.observed)), None => (false, "holds".into()) }
+}
